@@ -226,6 +226,9 @@ def value_cases(draw):
     if len(shape) >= 2 and draw(st.integers(0, 9)) == 0:
         shape[draw(st.integers(1, len(shape) - 1))] = 0
         layout = ["contig", 0]
+    elif draw(st.integers(0, 19)) == 0:
+        shape[0] = 0  # no rows at all: "every shape" includes the tensor without rows (ceil(0 x bits / 8) = 0 payload rows)
+        layout = ["contig", 0]
     return {
         "bits": bits,
         "shape": shape,
@@ -336,7 +339,9 @@ def exec_ops(case):
     if isinstance(ref, Raised):
         out.discard = True  # the plain-tensor program itself is invalid
         return out
-    p = PackedTensor.pack(t, case["bits"])
+    p = cut(PackedTensor.pack, t, case["bits"])
+    if isinstance(p, Raised):
+        return out.fail(f"ops/pack/raises:{p.type}", p.text)
     res = cut(op, p, case["a"], case["b"])
     tag = f"ops/{case['op']}"
     if isinstance(res, Raised):
@@ -360,7 +365,10 @@ def exec_ops(case):
         changed = t.clone().contiguous()
         changed.reshape(-1)[case["b"] % t.numel()] ^= 1
         for name, other in (("longer-zero-rows", longer), ("equal-copy", t.clone().contiguous()), ("one-value-changed", changed)):
-            po = PackedTensor.pack(other, case["bits"])
+            po = cut(PackedTensor.pack, other, case["bits"])
+            if isinstance(po, Raised):
+                out.fail(f"ops/pack/raises:{po.type}", po.text)
+                continue
             for fname, fn in (("equal", torch.equal), ("allclose", lambda a, b: bool(a.shape == b.shape and torch.equal(a, b)))):
                 want = cut(fn, t, other)
                 got = cut(fn, p, po)
